@@ -259,6 +259,8 @@ EDITS = {
         ("ss01", "crates/lib/mimium-lang/src/compiler/mirgen/convert_qualified_names.rs", "        let _ = self.local_bindings.pop();", "        let _ = self.local_bindings.pop();\n        let _ = self.local_bindings.pop();", "verus", "resolve_walk"),
         ("ss02", "crates/lib/mimium-lang/src/compiler/mirgen/convert_qualified_names.rs", "        if let Some(scope) = self.local_bindings.last_mut() {\n            scope.insert(symbol);", "        if let Some(scope) = self.local_bindings.first_mut() {\n            scope.insert(symbol);", "verus", "resolve_walk"),
         ("ss03", "crates/lib/mimium-lang/src/compiler/mirgen/convert_qualified_names.rs", "        self.local_bindings.push(HashSet::new());", "        if self.local_bindings.is_empty() { self.local_bindings.push(HashSet::new()); }", "verus", "resolve_walk"),
+        ("dp01", "crates/lib/mimium-lang/src/compiler/mirgen/convert_qualified_names.rs", "    let loc = ctx.make_location(e_id);\n\n    match e_id.to_expr().clone() {", "    let loc = ctx.make_location(e_id);\n    ctx.push_scope();\n\n    match e_id.to_expr().clone() {", "verus", "resolve_walk"),
+        ("dp02", "crates/lib/mimium-lang/src/compiler/mirgen/convert_qualified_names.rs", "        Expr::Literal(_) | Expr::Error => e_id,", "        Expr::Literal(_) | Expr::Error => {\n            ctx.current_module_context.clear();\n            e_id\n        }", "verus", "resolve_walk"),
         ("rw10", "crates/lib/mimium-lang/src/compiler/mirgen/convert_qualified_names.rs", "            let new_rhs = convert_expr(ctx, rhs);", "            let new_rhs = rhs;", "verus", "resolve_walk"),
         ("rw11", "crates/lib/mimium-lang/src/compiler/mirgen/convert_qualified_names.rs", "            // Unwrap parenthesized expressions\n            convert_expr(ctx, e)", "            // Unwrap parenthesized expressions\n            e", "verus", "resolve_walk"),
         ("rw12", "crates/lib/mimium-lang/src/compiler/mirgen/convert_qualified_names.rs", "            Expr::Apply(new_fun, new_args).into_id(loc)", "            Expr::Apply(fun, new_args).into_id(loc)", "verus", "resolve_walk"),
